@@ -65,6 +65,32 @@ CHECKS = {
          "pretty/compressed is parsed by expat and TLC evaluates WellFormedDoc and the read-back of probe strings. "
          "Exploration level: well-formedness is decided by expat per observed document.",
          "Unicode sweep + expat + TLA+ acceptance predicates; TLA+ model of the escaping sinks"),
+ "C05": ("model_checking", "4.C05",
+         "completeness: the bounded box family is converted and TLC checks, per box, that the input is the claimed "
+         "box and that the document is exactly the expected rect (position, size, radius, class) plus interior "
+         "texts; soundness: RectSound is an invariant of the pipeline model on all small grids (TLC, replayed) and "
+         "is evaluated on every rect of the box-mutation family, random grids and the mixed corpus.",
+         "TLA+ model checking + TLC replay + trace validation (box oracle, RectSound)"),
+ "C13": ("model_checking", "4.C13",
+         "TLC checks for all 22 catalogue entries x offsets that the circle given by the documented parameters "
+         "satisfies the independent CircleOracle, each behaviour is replayed; the code's circles for 22 drawings x "
+         "many placements (alone / with other content) are validated against CircleOracle by the trace spec.",
+         "TLA+ model checking of the catalogue stage + TLC replay + trace validation (circle oracle)"),
+ "C14": ("model_checking", "4.C14",
+         "the arrow, bullet and rounded-corner families are generated, converted and validated by the trace "
+         "specification: TLC checks the input is the claimed drawing and evaluates ArrowOracle / BulletOracle / "
+         "CornerOracle in integer geometry on the recorded document.",
+         "trace validation (TLC) of parametric families against integer-geometry oracles"),
+ "C16": ("model_checking", "4.C16",
+         "TLC checks the enclosure model (deepest-first forest, scale-invariant fit) for all scenes of the family; "
+         "legend and tag families are converted and TLC checks the input relation and RefLegend / RefTagClasses on "
+         "the recorded documents.",
+         "TLA+ model checking of the enclosure stage + trace validation (legend and tag oracles)"),
+ "C18": ("model_checking", "4.C18",
+         "TLC checks the Assemble model (order, switch independence, override); for the code every variant "
+         "(entry points, compressed, 8 switch combinations, cosmetic settings, override sizes) is recorded and "
+         "TLC checks SettingsVariant against the default conversion of the same input.",
+         "TLA+ model checking of the assemble stage + relational trace validation"),
 }
 
 def main():
